@@ -282,7 +282,8 @@ class Weaver:
         if assumed:
             out.append(indent + '{ unimplemented!() }')
             return out, rec
-        body = ex.rewrite_body(it.body, log, r14)
+        mut_refs = set(re.findall(r'\b([a-z_]\w*)\s*:\s*&\s*mut\b', it.head))
+        body = ex.rewrite_body(it.body, log, r14, mut_refs)
         # insertion list: (offset, text)
         ins = []
         heads = None
@@ -324,12 +325,22 @@ class Weaver:
                     if mm2:
                         pos += mm2.end()
                 ins.append((pos, '\n' + text + '\n'))
-            elif kind in ('before', 'after'):
+            elif re.fullmatch(r'(before|after)\d*', kind):
                 lit = arg
                 cnt = body.count(lit)
-                if cnt != 1:
-                    raise ex.ExtractError('%s: anchor `%s` matches %d times' % (qual, lit, cnt))
-                pos = body.index(lit)
+                mk = re.fullmatch(r'(before|after)(\d+)', kind)
+                if mk:
+                    # `//@after2 <literal>`: the 2nd textual occurrence of the anchor
+                    kind, occ = mk.group(1), int(mk.group(2))
+                    if occ < 1 or occ > cnt:
+                        raise ex.ExtractError('%s: anchor `%s` occurrence %d of %d' % (qual, lit, occ, cnt))
+                    pos = -1
+                    for _ in range(occ):
+                        pos = body.index(lit, pos + 1)
+                else:
+                    if cnt != 1:
+                        raise ex.ExtractError('%s: anchor `%s` matches %d times' % (qual, lit, cnt))
+                    pos = body.index(lit)
                 if kind == 'before':
                     # start of the line holding the anchor
                     pos = body.rfind('\n', 0, pos) + 1
